@@ -233,6 +233,8 @@ func c10(tier string) int {
 	c10Malformed(run, u, gen, la, lb)
 	c10RateLimit(run, u, gen, la, lb)
 	c10RateRecovery(run, "C10")
+	// Context leg: the client goes away before or at any storage call.
+	ctxLeg(run, "C10")
 	c10Overlap(run, u, gen, la, lb)
 	c10HugeSizes(run, u, la, lb)
 	c10Faults(run, u, gen, la, lb)
